@@ -203,7 +203,7 @@ def walk(ad, rng, max_steps, stats, case_of, keys=None, prefer=None, trace=None,
             stats["walks_stopped_by_budget"] = stats.get("walks_stopped_by_budget", 0) + 1
             break
         if keys is not None:
-            keys.add("%s|%s" % (ad.case_digest, "".join(map(str, state))))
+            keys.add("%s|%s" % (ad.case_digest, ",".join(map(str, state))))
         stats["states_probed"] = stats.get("states_probed", 0) + 1
         v, info = probe_state(ad, prefix, state, nev, lam, stats, case_of)
         if v:
